@@ -6,8 +6,8 @@
    multiplication algorithms, modular inverse, the 10x26 / 8x32 / struct-int128 / asm configurations,
    SHA-256/HMAC/RFC 6979) is tied by the differential correspondence of ./check C05 on a build matrix. *)
 From Coq Require Import ZArith List Bool.
-Require Import Kernel.CSem Kernel.Field5x52 Kernel.Field5x52Sqr Kernel.CtPrimitives Kernel.FieldNormalize Kernel.Scalar4x64 Kernel.ScalarMul512 Kernel.ScalarSqr512 Kernel.ScalarReduce512 Kernel.Scalar8x32Check Kernel.Scalar8x32Mul512 Kernel.Scalar8x32Reduce512 Kernel.Scalar8x32Mul Kernel.FieldPrims Kernel.ScalarMul4x64 Kernel.ScalarMul Kernel.ScalarAdd Kernel.FieldNormalize2.
-Require Import Gen.fe_mul_inner Gen.fe_sqr_inner Gen.scalar_cmov Gen.fe_impl_cmov Gen.fe_impl_normalize Gen.scalar_check_overflow Gen.scalar_is_high Gen.scalar_mul_512 Gen.scalar_sqr_512 Gen.scalar_reduce_512 Gen.scalar8x32_mul_512 Gen.scalar8x32_sqr_512 Gen.scalar8x32_check_overflow Gen.scalar8x32_reduce_512 Gen.scalar8x32_mul Gen.scalar8x32_sqr Gen.scalar_mul_512b Gen.scalar_sqr_512b Gen.scalar_mul Gen.scalar_sqr Gen.scalar_add Gen.scalar_half Gen.fe_impl_normalize_weak Gen.fe_impl_normalizes_to_zero Gen.fe_impl_add Gen.fe_impl_negate_unchecked Gen.fe_impl_half Gen.scalar_negate.
+Require Import Kernel.CSem Kernel.Field5x52 Kernel.Field5x52Sqr Kernel.CtPrimitives Kernel.FieldNormalize Kernel.Scalar4x64 Kernel.ScalarMul512 Kernel.ScalarSqr512 Kernel.ScalarReduce512 Kernel.Scalar8x32Check Kernel.Scalar8x32Mul512 Kernel.Scalar8x32Reduce512 Kernel.Scalar8x32Mul Kernel.FieldPrims Kernel.ScalarMul4x64 Kernel.ScalarMul Kernel.ScalarAdd Kernel.FieldNormalize2 Kernel.MorePrims.
+Require Import Gen.fe_mul_inner Gen.fe_sqr_inner Gen.scalar_cmov Gen.fe_impl_cmov Gen.fe_impl_normalize Gen.scalar_check_overflow Gen.scalar_is_high Gen.scalar_mul_512 Gen.scalar_sqr_512 Gen.scalar_reduce_512 Gen.scalar8x32_mul_512 Gen.scalar8x32_sqr_512 Gen.scalar8x32_check_overflow Gen.scalar8x32_reduce_512 Gen.scalar8x32_mul Gen.scalar8x32_sqr Gen.scalar_mul_512b Gen.scalar_sqr_512b Gen.scalar_mul Gen.scalar_sqr Gen.scalar_add Gen.scalar_half Gen.fe_impl_normalize_weak Gen.fe_impl_normalizes_to_zero Gen.fe_impl_mul_int_unchecked Gen.fe_impl_to_storage Gen.fe_impl_from_storage Gen.scalar_cond_negate Gen.fe_impl_add Gen.fe_impl_negate_unchecked Gen.fe_impl_half Gen.scalar_negate.
 Import ListNotations.
 Local Open Scope Z_scope.
 
@@ -143,6 +143,34 @@ Theorem scalar8x32_sqr_correct : forall a0 a1 a2 a3 a4 a5 a6 a7,
   scalar8x32_sqr_k a0 a1 a2 a3 a4 a5 a6 a7 Q.
 Proof. exact Kernel.Scalar8x32Mul.scalar8x32_sqr_correct. Qed.
 Print Assumptions scalar8x32_sqr_correct.
+(* Multiplication by a small integer, the value-preserving re-packing between 5x52 and 4x64 limbs, conditional negation *)
+Theorem fe_mul_int_correct : forall r0 r1 r2 r3 r4 a,
+  0 <= a < 2^64 -> 0 <= r0 -> 0 <= r1 -> 0 <= r2 -> 0 <= r3 -> 0 <= r4 ->
+  r0 * a < 2^64 -> r1 * a < 2^64 -> r2 * a < 2^64 -> r3 * a < 2^64 -> r4 * a < 2^64 ->
+  fe_impl_mul_int_unchecked_k r0 r1 r2 r3 r4 a (fun s0 s1 s2 s3 s4 =>
+    s0 = r0 * a /\ s1 = r1 * a /\ s2 = r2 * a /\ s3 = r3 * a /\ s4 = r4 * a /\ val5 s0 s1 s2 s3 s4 = val5 r0 r1 r2 r3 r4 * a).
+Proof. exact Kernel.MorePrims.fe_mul_int_correct. Qed.
+Print Assumptions fe_mul_int_correct.
+Theorem fe_to_storage_correct : forall a0 a1 a2 a3 a4,
+  0 <= a0 < 2^52 -> 0 <= a1 < 2^52 -> 0 <= a2 < 2^52 -> 0 <= a3 < 2^52 -> 0 <= a4 < 2^48 ->
+  fe_impl_to_storage_k a0 a1 a2 a3 a4 (fun s0 s1 s2 s3 =>
+    (0 <= s0 < 2^64 /\ 0 <= s1 < 2^64 /\ 0 <= s2 < 2^64 /\ 0 <= s3 < 2^64) /\ val4 s0 s1 s2 s3 = val5 a0 a1 a2 a3 a4).
+Proof. exact Kernel.MorePrims.fe_to_storage_correct. Qed.
+Print Assumptions fe_to_storage_correct.
+Theorem fe_from_storage_correct : forall s0 s1 s2 s3,
+  0 <= s0 < 2^64 -> 0 <= s1 < 2^64 -> 0 <= s2 < 2^64 -> 0 <= s3 < 2^64 ->
+  fe_impl_from_storage_k s0 s1 s2 s3 (fun a0 a1 a2 a3 a4 =>
+    (0 <= a0 < 2^52 /\ 0 <= a1 < 2^52 /\ 0 <= a2 < 2^52 /\ 0 <= a3 < 2^52 /\ 0 <= a4 < 2^48) /\ val5 a0 a1 a2 a3 a4 = val4 s0 s1 s2 s3).
+Proof. exact Kernel.MorePrims.fe_from_storage_correct. Qed.
+Print Assumptions fe_from_storage_correct.
+Theorem scalar_cond_negate_correct : forall a0 a1 a2 a3 flag,
+  0 <= a0 < 2^64 -> 0 <= a1 < 2^64 -> 0 <= a2 < 2^64 -> 0 <= a3 < 2^64 -> val4 a0 a1 a2 a3 < N256 -> flag = 0 \/ flag = 1 ->
+  scalar_cond_negate_k a0 a1 a2 a3 flag (fun r0 r1 r2 r3 ret =>
+    (0 <= r0 < 2^64 /\ 0 <= r1 < 2^64 /\ 0 <= r2 < 2^64 /\ 0 <= r3 < 2^64) /\
+    val4 r0 r1 r2 r3 = (if flag =? 0 then val4 a0 a1 a2 a3 else (N256 - val4 a0 a1 a2 a3) mod N256) /\
+    ret = (if flag =? 0 then 1 else -1)).
+Proof. exact Kernel.MorePrims.scalar_cond_negate_correct. Qed.
+Print Assumptions scalar_cond_negate_correct.
 (* Weak normalisation and the zero test of the 5x52 field, for every limb vector of magnitude up to 32 *)
 Theorem fe_normalize_weak_correct : forall r0 r1 r2 r3 r4,
   0 <= r0 < 2^58 -> 0 <= r1 < 2^58 -> 0 <= r2 < 2^58 -> 0 <= r3 < 2^58 -> 0 <= r4 < 2^54 ->
